@@ -508,6 +508,42 @@ func c02R4(c *Ctx) {
 		}
 		c.Check(K(f.Name, "one worker per selected peer"), goStmt.Pos(), okSpawn, "one follow-up request is started for every selected peer, asking that peer", "spawn loop or queryFn argument differs")
 	}
+	// the follow-up is skipped only for an empty selection, a stop verdict or a dead context:
+	// every successful return that does not lie behind the spawn loop is implied by one of them
+	{
+		at := func(leaf ast.Expr) (string, bool, bool) {
+			if x, nonEmpty, ok := emptiness(info, leaf); ok && eng.IsObj(info, x, qpeers) {
+				return "selected", nonEmpty, true
+			}
+			if call, ok := eng.Unparen(leaf).(*ast.CallExpr); ok && eng.IsObj(info, call.Fun, stopFn) {
+				return "stopped", true, true
+			}
+			if b, ok := eng.Unparen(leaf).(*ast.BinaryExpr); ok && (isNil(info, b.Y) || isNil(info, b.X)) {
+				x := b.X
+				if isNil(info, b.X) {
+					x = b.Y
+				}
+				if _, isErr := eng.IsCallTo(info, x, "(context.Context).Err"); isErr {
+					return "cancelled", b.Op == token.NEQ, true
+				}
+			}
+			return "", false, false
+		}
+		heads := loopHeads(cf, p, goStmt)
+		for i, ret := range cf.Returns() {
+			if len(ret.Results) != 2 || !isNil(info, ret.Results[1]) || len(heads) == 0 {
+				continue
+			}
+			// behind the spawn loop: not a skip
+			if cf.Dominates(heads[0], cf.LocOf(ret)) {
+				continue
+			}
+			ok := cf.ImpliedAt(cf.LocOf(ret), at, []string{"selected", "stopped", "cancelled"}, func(v map[string]bool) bool {
+				return !v["selected"] || v["stopped"] || v["cancelled"]
+			})
+			c.Check(K(f.Name, "return#"+itoa(i)+" skips the follow-up only when allowed"), ret.Pos(), ok, "the follow-up is skipped only when no result peer is still unasked, the stop function fired, or the context ended", "a successful return before the follow-up is reachable with selected peers, no stop and a live context")
+		}
+	}
 	// not entered when stopped or cancelled
 	gl := cf.LocOf(goStmt)
 	gStop, _ := cf.Guarded(gl, func(ft eng.Fact) bool {
